@@ -21,9 +21,10 @@ REGISTERED = {"http.echo": "echo", "http.other": "other", "private.obj": "privat
 MEMBERS = {"method": "echo", "method_raises": "fail", "attribute": "value", "meta": "$meta", "unknown": "nosuch", "private": "_secret"}
 PATTERNS = {"default": r"http\.", "anchored": r"http\.echo$", "empty": ""}
 PARAMS = {"none": [], "one": [("message", "hi there")], "two": [("a", "1"), ("b", "two")], "repeated": [("a", "1"), ("a", "2")],
-          "encoded": [("text", "héllo wörld&=+/%?#"), ("n", "中")]}
+          "encoded": [("text", "héllo wörld&=+/%?#"), ("n", "中"), ("esc", "100%41%2541"), ("plus", "a+b c")]}
 KEY = "secret-key-1"
-WRONG_KEYS = ["wrong", "secret-key-", "secret-key-1x", "SECRET-KEY-1", "secret-key-2", " secret-key-1"]
+WRONG_KEYS = ["wrong", "secret-key-", "secret-key-1x", "SECRET-KEY-1", "secret-key-2", " secret-key-1", "secret-key-1 ", "s", "ecret-key-1",
+              "secret-key-1\x00", "None"]
 # the spec's Matches table, restated for the sanity check against the concrete strings
 MATCH_TABLE = {"default": {"exact", "suffix", "other_exposed", "unknown"}, "anchored": {"exact"}, "empty": set(NAMES)}
 
@@ -70,7 +71,7 @@ def build_request(r, i):
 
 def run_cases(cases):
     import Pyro5.api as P
-    from Pyro5 import config, nameserver, callcontext
+    from Pyro5 import config, nameserver, callcontext, server
     from Pyro5.utils import httpgateway as G
     traces = []
 
@@ -105,7 +106,13 @@ def run_cases(cases):
 
             def nosuch_other(self):
                 return self._ran("nosuch_other", {}, 1)
-        d = P.Daemon(host="127.0.0.1")
+        contacted = []
+
+        class LoggingDaemonObject(server.DaemonObject):
+            def get_metadata(self, objectId):
+                contacted.append(objectId)
+                return super().get_metadata(objectId)
+        d = P.Daemon(host="127.0.0.1", interface=P.expose(LoggingDaemonObject))
         ns = nameserver.NameServer()
         d.register(ns, "Pyro.NameServer")
         for nsname, tag in REGISTERED.items():
@@ -133,6 +140,7 @@ def run_cases(cases):
                 tr = {"r": r, "status": 0, "traffic": 0, "inv": 0, "inv_right": True, "body": "other", "index_leak": False,
                       "path": env["PATH_INFO"], "qs": env["QUERY_STRING"]}
                 del log[:]
+                del contacted[:]
                 hook.sent = 0
                 got = {}
 
@@ -167,7 +175,8 @@ def run_cases(cases):
                 if r["path"] == "index":
                     text = body.decode("utf-8", "replace")
                     pat = PATTERNS[r["pattern"]]
-                    tr["index_leak"] = any(n in text for n in REGISTERED if pat and not re.match(pat, n))
+                    hidden = [n for n in REGISTERED if pat and not re.match(pat, n)]
+                    tr["index_leak"] = any(n in text for n in hidden) or any("obj_" + REGISTERED[n] in contacted for n in hidden)
                 traces.append(tr)
         finally:
             memnet.NET.hook = None
